@@ -142,6 +142,29 @@ func (g *gen) genMixed(nops int, w mixW) {
 				g.add(DBOp{K: "armfault", Mode: pick(&g.r, armFaultNames), N: g.r.IntN(10)})
 			}
 		}
+		if g.prof == "iofault" && name == "ingest" && len(g.pfx) >= 3 && g.r.IntN(3) == 0 {
+			// The ingest's overlap check under a read fault: a table that spans
+			// several prefixes is flushed, then a one-key table that lies
+			// strictly inside its bounds - and replaces one of its keys - is
+			// ingested while the N-th read of the store's own tables fails. The
+			// ingest may fail; it must not succeed below the older version.
+			lo := g.r.IntN(len(g.pfx) - 2)
+			hi := lo + 2 + g.r.IntN(len(g.pfx)-lo-2)
+			mid := lo + 1 + g.r.IntN(hi-lo-1)
+			sfx := pick(&g.r, g.sfx)
+			b := DBOp{K: "batch", Mode: "direct"}
+			for _, k := range []string{g.pfx[lo], g.pfx[mid] + sfx, g.pfx[hi] + pick(&g.r, g.sfx)} {
+				v, n := g.val()
+				b.Sub = append(b.Sub, DBOp{K: "set", Key: k, Val: v, VLen: n % 200})
+			}
+			g.add(b)
+			g.add(DBOp{K: "flush"})
+			g.add(DBOp{K: "armfault", Mode: pick(&g.r, []string{"table-read", "table-read", "table-open"}), N: g.r.IntN(7)})
+			v, n := g.val()
+			g.add(DBOp{K: "ingest", Sub: []DBOp{{K: "table", Sub: []DBOp{{K: "set", Key: g.pfx[mid] + sfx, Val: v, VLen: n % 200}}}}})
+			g.add(DBOp{K: "scan"})
+			continue
+		}
 		switch name {
 		case "write":
 			g.add(g.writeOp(w.rangeKeys))
